@@ -105,6 +105,18 @@ that look (`Consume`: one snapshot; `Get`, `GetByKey`, `GetByTime`: one look, th
 positions of an append-only file). `ConsumeByKey` looks twice; the order of the two looks in
 the source is the regenerated fact `consumeByKeyNextFirst` in `source_facts`. -/
 
+/-- How often, and in which order, each read of a segment looks at its index, regenerated from the
+source (go/ast): `Consume` looks once (`GetNextOffset` for OffsetNewest, else the one snapshot
+`index.Consume`); `Get` and `GetByKey` look once and then read records at positions, which never change
+in an append-only file; `GetByTime` looks once (`Time`) and may then ask for the first item of an index
+it has just found non-empty, which never changes either; `ConsumeByKey` is the read with two looks at a
+growing index, next offset first: the theorems below. One look is atomic — this is what the lock-discipline
+model's "reads are atomic" rests on for the head, whose index grows under the writer lock. -/
+theorem reads_look_once :
+    Gen.readerIndexLooks =
+      "Consume:GetNextOffset,Consume;Get:Get;GetByKey:Keys;GetByTime:Time,Get;ConsumeByKey:GetNextOffset,Keys" := by
+  decide
+
 open Klev.HeadRead in
 /-- **`ConsumeByKey` with the next offset read first is linearizable**: whatever publishes land
 between its two looks, it returns what a sequential `ConsumeByKey` returns in the state of the
@@ -207,6 +219,7 @@ end NonVacuity
 #print axioms Klev.C08.writer_exclusive
 #print axioms Klev.C08.publish_refines
 #print axioms Klev.C08.delete_refines
+#print axioms Klev.C08.reads_look_once
 #print axioms Klev.C08.consumeByKey_two_looks
 #print axioms Klev.C08.consumeByKey_no_skip
 #print axioms Klev.C08.consumeByKey_spec_l0
